@@ -1,1 +1,106 @@
-From TL Require Import Base.Base.
+(* C15 - String, formatting and symbol functions meet their specification. *)
+(* Statements only; the proofs are in Proofs/Strings.v and Proofs/Decimal.v. *)
+From TL Require Import Base.Base Model.Reader Model.Printer Model.Store Model.Eval Model.Init.
+From TL Require Import Proofs.Decimal Proofs.Strings.
+Local Open Scope list_scope.
+
+(* concat: associative, the empty string is its identity, for all texts    *)
+(* (any code points: quotes, backslashes, percent signs, newlines, astral)  *)
+Theorem C15_concat_is_append : forall ss acc,
+  concat_l (map Str ss) acc = Ok (acc ++ List.concat ss).
+Proof. exact concat_l_spec. Qed.
+Theorem C15_concat_assoc : forall a b c,
+  (match concat2 a b with Ok ab => concat2 ab c | e => e end) =
+  (match concat2 b c with Ok bc => concat2 a bc | e => e end).
+Proof. exact concat_assoc. Qed.
+Theorem C15_concat_identity : forall a, concat2 [] a = Ok a /\ concat2 a [] = Ok a.
+Proof. intros a. split; [apply concat_empty_l|apply concat_empty_r]. Qed.
+Theorem C15_concat_rejects_non_string : forall l acc x l2, stringp x = false ->
+  concat_l (map Str l ++ x :: l2) acc = Err EType.
+Proof. exact concat_rejects_non_string. Qed.
+
+(* string< is a strict total order consistent with string=; string> is its *)
+(* converse (apply_prim calls text_ltb with the arguments swapped)          *)
+Theorem C15_lt_irreflexive : forall a, text_ltb a a = false.
+Proof. exact text_ltb_irrefl. Qed.
+Theorem C15_lt_transitive : forall a b c,
+  text_ltb a b = true -> text_ltb b c = true -> text_ltb a c = true.
+Proof. exact text_ltb_trans. Qed.
+Theorem C15_trichotomy : forall a b,
+  (text_ltb a b = true /\ text_eqb a b = false /\ text_ltb b a = false) \/
+  (text_ltb a b = false /\ text_eqb a b = true /\ text_ltb b a = false) \/
+  (text_ltb a b = false /\ text_eqb a b = false /\ text_ltb b a = true).
+Proof. exact text_trichotomy. Qed.
+Theorem C15_string_eq_is_equality : forall a b, text_eqb a b = true <-> a = b.
+Proof. exact text_eqb_iff. Qed.
+
+(* format = render of the directive list: one argument per directive, in  *)
+(* order; %% is a literal %; a lone trailing % is dropped                   *)
+Theorem C15_format_is_render : forall F inp args acc,
+  format_loop F inp args acc = render F (directives inp) args acc.
+Proof. exact format_is_render. Qed.
+Theorem C15_format_missing_argument : forall F d r acc,
+  render F (DArg d :: r) [] acc = Err EMissing.
+Proof. exact render_missing. Qed.
+Theorem C15_format_unknown_directive : forall F d a r args acc,
+  N.eqb d 115 = false -> N.eqb d 83 = false -> N.eqb d 100 = false -> N.eqb d 102 = false ->
+  render F (DArg d :: r) (a :: args) acc = Err ESyntax.
+Proof. exact render_unknown. Qed.
+Theorem C15_format_consumes_in_order : forall F d r a args acc t,
+  render_arg F d a = Ok t -> render F (DArg d :: r) (a :: args) acc = render F r args (acc ++ t).
+Proof. exact render_step_arg. Qed.
+Theorem C15_format_surplus_ignored : forall F ds args extra acc out,
+  render F ds args acc = Ok out -> render F ds (args ++ extra) acc = Ok out.
+Proof. exact render_surplus_ignored. Qed.
+
+(* %d prints the decimal digits of the integer; distinct integers print    *)
+(* differently, and the reader's conversion inverts the printing            *)
+Theorem C15_print_Z_injective : forall a b, print_Z a = print_Z b -> a = b.
+Proof. exact print_Z_inj. Qed.
+Theorem C15_decimal_roundtrip : forall z, in_i64 z = true -> parse_i64 (print_Z z) = Some z.
+Proof. exact parse_print_Z. Qed.
+
+(* gensym: the name is the prefix followed by the counter, the counter is  *)
+(* incremented by every call, so successive names never repeat; the symbol *)
+(* carries a fresh serial (it is eq to no other symbol)                     *)
+Theorem C15_gensym_names_distinct : forall p c1 c2, c1 <> c2 -> gensym_name p c1 <> gensym_name p c2.
+Proof. exact gensym_names_distinct. Qed.
+Theorem C15_gensym_step : forall F rec load s c rest,
+  bitems (sget s counter_key) = Int c :: rest -> in_i64 (c + 1)%Z = true ->
+  exists s', apply_prim F rec load PGensym Nil s
+             = (Ok (USym (gensym_name (s2t "g") c) (next_id s)), s') /\
+             bitems (sget s' counter_key) = Int (c + 1)%Z :: rest /\
+             next_id s' = Pos.succ (next_id s).
+Proof. exact gensym_step. Qed.
+
+Print Assumptions C15_concat_is_append. Print Assumptions C15_concat_assoc.
+Print Assumptions C15_concat_identity. Print Assumptions C15_concat_rejects_non_string.
+Print Assumptions C15_lt_irreflexive. Print Assumptions C15_lt_transitive.
+Print Assumptions C15_trichotomy. Print Assumptions C15_string_eq_is_equality.
+Print Assumptions C15_format_is_render. Print Assumptions C15_format_missing_argument.
+Print Assumptions C15_format_unknown_directive. Print Assumptions C15_format_consumes_in_order.
+Print Assumptions C15_format_surplus_ignored. Print Assumptions C15_print_Z_injective.
+Print Assumptions C15_decimal_roundtrip. Print Assumptions C15_gensym_names_distinct.
+Print Assumptions C15_gensym_step.
+
+(* non-vacuity *)
+Definition F0 : fops :=
+  {| f_add := fun _ _ => 0%Z; f_sub := fun _ _ => 0%Z; f_mul := fun _ _ => 0%Z;
+     f_div := fun _ _ => 0%Z; f_rem := fun _ _ => 0%Z; f_pow := fun _ _ => 0%Z;
+     f_max := fun _ _ => 0%Z; f_min := fun _ _ => 0%Z; f_of_int := fun z => z;
+     f_to_int := fun z => z; f_round := fun z => z; f_trunc := fun z => z;
+     f_lt := Z.ltb; f_le := Z.leb; f_eq := Z.eqb; f_is_finite := fun _ => true;
+     f_to_dec := fun _ => []; f_of_dec := fun _ => None |}.
+Definition ev0 (p : string) := fst (eval_string F0 60 (s2t p) (init_state [] None)).
+Example C15_ex1 : ev0 "(format ""%d-%s-%%-%S"" 12 ""a"" '(b))" = Ok (Str (s2t "12-a-%-(b)")).
+Proof. vm_compute. reflexivity. Qed.
+Example C15_ex2 : ev0 "(format ""%d"")" = Err EMissing.
+Proof. vm_compute. reflexivity. Qed.
+Example C15_ex3 : ev0 "(format ""%x"" 1)" = Err ESyntax.
+Proof. vm_compute. reflexivity. Qed.
+Example C15_ex4 : ev0 "(list (string< ""ab"" ""b"") (string> ""ab"" ""b"") (concat ""a"" """" ""bc""))"
+  = Ok (of_list [T; Nil; Str (s2t "abc")] Nil).
+Proof. vm_compute. reflexivity. Qed.
+
+Check C15_format_is_render : forall F inp args acc,
+  format_loop F inp args acc = render F (directives inp) args acc.
